@@ -31,6 +31,7 @@ def reset_class_state():
     from tdda.referencetest.referencetest import ReferenceTest
     from tdda.referencetest import referencetestcase as R
     ReferenceTest.regenerate.clear()
+    ReferenceTest.default_data_locations.clear()
     ReferenceTest.verbose = True
     R.ReferenceTestCase.verbose = True
 
@@ -310,8 +311,18 @@ def run(ctx):
             root = os.path.join(base, 'loc%d' % it)
             nobj = rng.randint(2, 3)
             objs = []
+            class_default = rng.random() < 0.4
+            if class_default:
+                # a default location for the whole class (set before the objects exist); objects with locations of their
+                # own are not affected by it, an object without any uses it
+                cdir = os.path.join(root, 'class-default')
+                os.makedirs(cdir)
+                ReferenceTest.set_default_data_location(cdir)
             for j in range(nobj):
                 rt_j, Failed = make_rt(base)
+                if class_default and j == nobj - 1:
+                    objs.append((rt_j, {None: cdir}))
+                    continue
                 locs = {None: os.path.join(root, 'obj%d' % j)}
                 if rng.random() < 0.5:
                     locs['csv'] = os.path.join(root, 'obj%d-csv' % j)
